@@ -139,9 +139,14 @@ def isInfix (needle hay : Bytes) : Bool :=
   (List.range (hay.length + 1)).any fun i => needle.isPrefixOf (hay.drop i)
 
 /-- operand positions of a string literal: `f = lit`, `f != lit`, `f in [lit]`, `f not in [lit]`,
-    `f contains lit`, `f not contains lit` -/
-inductive LitOp | eq | ne | inArr | notInArr | contains | notContains
+    `f contains lit`, `f not contains lit`, `f icontains lit`, `f not icontains lit` -/
+inductive LitOp | eq | ne | inArr | notInArr | contains | notContains | icontains | notIcontains
   deriving DecidableEq, Repr
+
+/-- `strings.ToUpper` on ASCII bytes (the case-insensitive operators upper-case both operands; the
+    correspondence keeps non-ASCII letters out of these cases) -/
+def upperAscii (b : Bytes) : Bytes :=
+  b.map fun c => if 97 ≤ c.toNat ∧ c.toNat ≤ 122 then UInt8.ofNat (c.toNat - 32) else c
 
 /-- documented semantics of `f <op> literal` on a non-null string field, when the literal
     denotes the byte string `d` -/
@@ -153,6 +158,8 @@ def evalLitOp (op : LitOp) (d field : Bytes) : Bool :=
   | .notInArr => field != d
   | .contains => isInfix d field
   | .notContains => !isInfix d field
+  | .icontains => isInfix (upperAscii d) (upperAscii field)
+  | .notIcontains => !isInfix (upperAscii d) (upperAscii field)
 
 /-- The table the repaired `ParseZqlString` is expected to implement. -/
 def expectedTable : UnescapeTable :=
